@@ -33,6 +33,11 @@ def _regimen(draw):
     dose = draw(gen.logu(0.1, 10.0))
     start = 0.0 if gen.chance(draw, 0.35) else draw(gen.logu(0.05, 3.0))
     period = None if gen.chance(draw, 0.3) else draw(gen.logu(0.3, 3.0))
+    if period is not None and gen.chance(draw, 0.35):
+        # decimal periods and starts (0.1, 0.3, ...): multiples are not exactly representable
+        period = draw(st.sampled_from([0.1, 0.2, 0.3, 0.6, 0.7, 1.1, 1.3]))
+        if start != 0.0:
+            start = draw(st.sampled_from([0.1, 0.2, 0.5, 1.7]))
     num = None
     if period is not None and not gen.chance(draw, 0.35):
         num = draw(st.integers(1, 4))
@@ -46,9 +51,9 @@ def _regimen(draw):
 
 def _final_time(draw, reg):
     """A final time by class: before the first dose, exactly at a dose time, between, late."""
-    cls = draw(st.sampled_from(['at_dose', 'between', 'before', 'late']))
+    cls = draw(st.sampled_from(['at_dose', 'at_dose', 'between', 'before', 'late']))
     s, p = reg['start'], reg['period']
-    k = draw(st.integers(0, 3)) if p else 0
+    k = draw(st.integers(0, 12)) if p else 0
     if reg['num']:
         k = min(k, reg['num'] - 1)
     if cls == 'before':
